@@ -18,6 +18,7 @@ import Driver.CafW64
 import Driver.Routes
 import Driver.World
 import Driver.Aiff
+import Driver.Ledger
 open Sf
 
 def lawOf (s : String) : Option G711.Law :=
@@ -80,4 +81,5 @@ def main (args : List String) : IO UInt32 := do
   | "routes" :: rest => RoutesDriver.cmd rest
   | "world" :: rest => WorldDriver.cmd rest
   | "aiff" :: rest => Driver.Aiff.cmd rest
+  | "ledger" :: _ => LedgerDriver.cmd
   | _ => IO.eprintln "usage: sfmodel <g711|...> ..."; return 2
